@@ -97,8 +97,13 @@ func vPerms4() [][]int {
 	return out
 }
 
-func vC10Conc(kind int) {
+func vC10Conc(kind int, via bool) {
 	name := vSubjName(kind)
+	// via: every subscription goes through a pass-through operator built with the unsafe
+	// constructor, so the subject receives a ready-made lock-free Subscriber and its own lock is
+	// the only thing that serializes the observer's callbacks (C02: "all subjects give the same
+	// guarantee")
+	var target Observable[int64]
 	bufSize := int64(-1)
 	if kind == vsReplay || kind == vsUnicast {
 		bufSize = 2
@@ -106,7 +111,12 @@ func vC10Conc(kind int) {
 	initial := int64(1)
 	subj := vNewSubject(kind, bufSize, initial)
 	recs := []*vRecorder{{name: "s0", yield: true, quiet: true}}
-	sub0 := subj.SubscribeWithContext(context.Background(), vObs(recs[0], vFlatInt))
+	target = subj
+	if via {
+		name += " behind TapOnFinalize"
+		target = TapOnFinalize[int64](func() {})(target)
+	}
+	sub0 := target.SubscribeWithContext(context.Background(), vObs(recs[0], vFlatInt))
 	ops := make([]vLOp, 4)
 	for i := range ops {
 		ops[i].thread = i / 2
@@ -137,7 +147,7 @@ func vC10Conc(kind int) {
 			case 1:
 				subj.CompleteWithContext(context.Background())
 			case 2:
-				subj.SubscribeWithContext(context.Background(), vObs(recs[op.sub], vFlatInt))
+				target.SubscribeWithContext(context.Background(), vObs(recs[op.sub], vFlatInt))
 			default:
 				sub0.Unsubscribe()
 			}
@@ -180,8 +190,13 @@ func vC10Conc(kind int) {
 	vReach("end")
 }
 
-func vhC10_conc_publish()  { vC10Conc(vsPublish) }
-func vhC10_conc_behavior() { vC10Conc(vsBehavior) }
-func vhC10_conc_replay()   { vC10Conc(vsReplay) }
-func vhC10_conc_async()    { vC10Conc(vsAsync) }
-func vhC10_conc_unicast()  { vC10Conc(vsUnicast) }
+func vhC10_conc_publish()  { vC10Conc(vsPublish, false) }
+func vhC10_conc_behavior() { vC10Conc(vsBehavior, false) }
+func vhC10_conc_replay()   { vC10Conc(vsReplay, false) }
+func vhC10_conc_async()    { vC10Conc(vsAsync, false) }
+func vhC10_conc_unicast()  { vC10Conc(vsUnicast, false) }
+
+func vhC10_concvia_publish()  { vC10Conc(vsPublish, true) }
+func vhC10_concvia_behavior() { vC10Conc(vsBehavior, true) }
+func vhC10_concvia_replay()   { vC10Conc(vsReplay, true) }
+func vhC10_concvia_async()    { vC10Conc(vsAsync, true) }
